@@ -676,6 +676,9 @@ class Ctx:
         if isinstance(base, BoxV):
             return Ref(base.cell, self._norm_path(proj[last + 1:], frame, base.cell.v))
         if not isinstance(base, Ref):
+            from .models_std import Str as _Str
+            if isinstance(base, _Str) and last == len(proj) - 1:
+                return base          # `&*s` of a &str constant: text values stand for their own reference
             raise Unmodelled('reborrow through %r' % (type(base).__name__,))
         tgt = None
         try:
